@@ -6,5 +6,6 @@ import (
 	"verif/sim/kit"
 )
 
-func TestWorker(t *testing.T) { kit.Worker(t, NodeWorld{}) }
-func TestReplay(t *testing.T) { kit.ReplayFile(t, NodeWorld{}) }
+func TestWorker(t *testing.T)      { kit.Worker(t, NodeWorld{}) }
+func TestReplay(t *testing.T)      { kit.ReplayFile(t, NodeWorld{}) }
+func TestDeterminism(t *testing.T) { kit.Determinism(t, NodeWorld{}) }
